@@ -49,7 +49,7 @@ PROPS["C10"] = {
     "trusted_base": ["net/http Cookie.String() serialisation is modelled (Model/Cookies.v) and compared byte for byte on every case",
                      "net/http/cookiejar as the browser; Model/Jar.v is compared with it at the end of every history (names and values)",
                      "miniredis as the Redis server for the real-client histories"],
-    "level_text": "c10_ticket_history (server-side store: after ANY history of saves and clears, from any jar satisfying the family invariant and any store contents, a further save loads exactly what was saved and a further clear leaves nothing), c10_ticket_load_after_save / c10_ticket_nothing_after_clear (its one-step forms: from any jar satisfying the invariant and any store contents, a save followed by a request loads exactly what was saved under the ticket the cookie names, and after a clear neither the cookie nor the entry is left); c10_history (any sequence of saves of any sizes and clears, each computed from and applied to the browser jar: after a "
+    "level_text": "c10_compression_is_per_call (lz4Compress regenerated: per-call buffer and writer), c10_clear_with_response_cookies; c10_ticket_history (server-side store: after ANY history of saves and clears, from any jar satisfying the family invariant and any store contents, a further save loads exactly what was saved and a further clear leaves nothing), c10_ticket_load_after_save / c10_ticket_nothing_after_clear (its one-step forms: from any jar satisfying the invariant and any store contents, a save followed by a request loads exactly what was saved under the ticket the cookie names, and after a clear neither the cookie nor the entry is left); c10_history (any sequence of saves of any sizes and clears, each computed from and applied to the browser jar: after a "
                   "save the next request loads exactly that value and timestamp, after a clear no cookie of the family is left and nothing "
                   "loads, cookies outside the family are untouched), c10_parts (parts concatenate to the signed value, each <= "
                   "maxCookieLength <= 4096, numbered names), c10_split_progress, c10_load_after_save, c10_clear_complete, "
@@ -160,7 +160,7 @@ PROPS["C08"] = {
     "assumptions": ["strings.ToLower modelled for ASCII (non-ASCII e-mails are run on the implementation and the oracle only)",
                     "net/url Hostname()/Port() of a bare host modelled by split_host_port_lax"],
     "trusted_base": ["reference reading of the e-mail rules written in the driver (vRefEmailOK)"],
-    "level_text": "c08_login_rules / c08_admitted_then_served / c08_served_then_admissible (login admission and the per-request rule coincide); c08_email_spec (validator = empty-check, '*', per-domain rule on the part after the last '@', file membership; for all "
+    "level_text": "c08_constraints_from_query_only (extractAllowedEntities regenerated: query only); c08_login_rules / c08_admitted_then_served / c08_served_then_admissible (login admission and the per-request rule coincide); c08_email_spec (validator = empty-check, '*', per-domain rule on the part after the last '@', file membership; for all "
                   "strings), c08_groups_spec, c08_served / c08_refused (every non-bypassed request: served only if the session passes the rules "
                   "passed to THIS call; a failing session is denied and its cookie cleared), c08_auth_only, c08_entities, "
                   "c08_groups_constraint, c08_emails_constraint are proved on the Gallina model of validator.go / Authorize / "
@@ -322,7 +322,7 @@ PROPS["C05"] = {
     "assumptions": OIDC_ASSUME + ["SHA-256 modelled as a function; freshness of crypto/rand is an assumption (the run checks distinctness of "
                                   "what it observed)"],
     "trusted_base": ["the in-memory provider"],
-    "level_text": "c05_unknown_method_refused / c05_verifier_in_clear_only_plain (the configured method as a string: anything but S256 / plain starts no login; the verifier is its own challenge only under plain), c05_challenge_switch_pinned (GenerateCodeChallenge's switch regenerated from the source); c05_nonce, c05_missing_nonce, c05_raw_nonce (validation with nonce checking passes only if the ID token's nonce claim equals "
+    "level_text": "c05_nonce_hash_is_per_call (HashNonce regenerated: no state shared between logins in flight); c05_unknown_method_refused / c05_verifier_in_clear_only_plain (the configured method as a string: anything but S256 / plain starts no login; the verifier is its own challenge only under plain), c05_challenge_switch_pinned (GenerateCodeChallenge's switch regenerated from the source); c05_nonce, c05_missing_nonce, c05_raw_nonce (validation with nonce checking passes only if the ID token's nonce claim equals "
                   "the hash of this login's stored nonce; absent/null/empty/raw values fail), c05_verifier_shape (128 unreserved characters "
                   "from the regenerated 96 random bytes, within RFC 7636's 43..128), c05_verifier_fresh (injective in the randomness), "
                   "c05_challenge are proved on the Gallina models; c05_secrecy / c05_secrecy_plain / c05_plain_discloses_verifier (an "
